@@ -268,10 +268,10 @@ theorem server_connect_params (env : Env) (now : Time) (rnd : Rnd) (up : Bool) (
         -- the login step either fails (nothing registered) or keeps the parameters
         cases hk : s.key with
         | none =>
-          simp only [hk] at hreg
+          simp only [ServerStream.loginStep, hk] at hreg
           rw [clientLookup_set_same] at hreg; cases hreg; rfl
         | some key =>
-          simp only [hk] at hreg
+          simp only [ServerStream.loginStep, hk] at hreg
           cases hl : env.loginRequest p.payload key now with
           | error e =>
             simp only [hl] at hreg
